@@ -50,6 +50,8 @@ func main() {
 	switch os.Args[1] {
 	case "check":
 		os.Exit(cmdCheck(os.Args[2:]))
+	case "builders":
+		os.Exit(cmdBuilders(os.Args[2:]))
 	case "schemas":
 		os.Exit(cmdSchemas(os.Args[2:]))
 	case "selftest":
